@@ -52,6 +52,10 @@ def valid_spec(draw, sm, want_mc=None, want_mixed=None, explicit=False, req_form
     use_mc = bool(cands) and (want_mc if want_mc is not None else draw(st.integers(0, 2)) == 0)
     mc = None
     if use_mc:
+        if 'many_provides' in sm.get('features', []) and draw(st.integers(0, 3)) != 0:
+            provs = [p['name'] for p in table if p['dir'] == 'provides']
+            inner = [c for c in cands if c[0] in provs[1:-1]]
+            cands = inner or cands
         if 'prefix_ports' in sm.get('features', []) and draw(st.booleans()):
             # port names that contain one another: make the multi-client port the longest one
             longest = max(len(c[0]) for c in cands)
@@ -62,7 +66,14 @@ def valid_spec(draw, sm, want_mc=None, want_mixed=None, explicit=False, req_form
     psem = 'MTS' if use_mc else draw(st.sampled_from(['STS', 'MTS']))
     psts, pmts = spell_uniform(draw, psem, prov, explicit)
     if want_mixed and len(req) >= 2:
-        assign = {p: ('STS' if i % 2 == 0 else 'MTS') for i, p in enumerate(req)}
+        off = draw(st.integers(0, 2))
+        if off == 2 and len(req) >= 3:  # one odd port out, somewhere
+            k = draw(st.integers(0, len(req) - 1))
+            odd = draw(st.sampled_from(['STS', 'MTS']))
+            assign = {p: (odd if i == k else ('MTS' if odd == 'STS' else 'STS'))
+                      for i, p in enumerate(req)}
+        else:
+            assign = {p: ('STS' if (i + off) % 2 == 0 else 'MTS') for i, p in enumerate(req)}
     else:
         assign = {p: draw(st.sampled_from(['STS', 'MTS'])) for p in req}
     rsts, rmts = spell_partition(draw, assign, explicit, req_form)
@@ -79,6 +90,7 @@ def valid_spec(draw, sm, want_mc=None, want_mixed=None, explicit=False, req_form
         prefix = [n] if draw(st.booleans()) else [n, 'Util']
     spec = {'filename': draw(st.sampled_from(['/x/y/', '', '../rel/dir.d/', './'])) + base + '.dzn',
             'suffix': suffix, 'enc': list(sm['enc']),
+            'enc_as': draw(st.sampled_from([None, None, None, 'dotted', 'colons', 'list'])),
             'prov': {'sts': psts, 'mts': pmts}, 'req': {'sts': rsts, 'mts': rmts}, 'mc': mc,
             'origin': draw(st.sampled_from(['CREATE', 'IMPORT'])),
             'copyright': draw(st.sampled_from(COPYRIGHTS)),
